@@ -320,6 +320,8 @@ class FuncTranslator:
                 return None if t is None else t[1]
             if isinstance(fn, ast.Name) and fn.id in ("set", "reversed", "list", "sorted") and len(e.args) == 1:
                 return self.etype(e.args[0])
+            if isinstance(fn, ast.Name) and fn.id == "__setidx":
+                return self.etype(e.args[0])
             if isinstance(fn, ast.Name):
                 if fn.id == "round" and len(e.args) == 2:
                     return FLOAT
@@ -540,6 +542,9 @@ class FuncTranslator:
         if isinstance(fn, ast.Name) and fn.id in ("set", "list") and len(e.args) == 1:
             # a set used for membership tests and `.add` only: the list of its elements (order of insertion)
             return self.expr(e.args[0], expected)
+        if isinstance(fn, ast.Name) and fn.id == "__setidx":
+            vt = self.etype(e.args[0])
+            return f"(Py.setIdx {self.expr(e.args[0], vt)} {self.expr(e.args[1], INT)} {self.expr(e.args[2], vt[1])})"
         if isinstance(fn, ast.Name) and fn.id == "reversed" and len(e.args) == 1:
             return f"(List.reverse {self.expr(e.args[0], expected)})"
         if isinstance(fn, ast.Name):
@@ -622,6 +627,11 @@ class FuncTranslator:
             if len(e.ops) != 1:
                 raise Untranslatable("chained comparison")
             op, l, r = e.ops[0], e.left, e.comparators[0]
+            if isinstance(op, (ast.Eq, ast.NotEq)) and all(isinstance(x, ast.Call) and isinstance(x.func, ast.Name) and x.func.id == "set"
+                                                           and len(x.args) == 1 for x in (l, r)):
+                # set(a) == set(b): the same elements, whatever the order and the repetitions
+                sset = f"(Py.sameSet {self.expr(l.args[0])} {self.expr(r.args[0])} = true)"
+                return sset if isinstance(op, ast.Eq) else f"(¬ {sset})"
             lt, rt = self.etype(l), self.etype(r)
             if isinstance(op, (ast.In, ast.NotIn)):
                 if rt is None:
@@ -1174,6 +1184,85 @@ class SelfRewriter(ast.NodeTransformer):
         return node
 
 
+OBJ_FIELDS = {"player": "owners", "next_states": "rows"}
+
+
+class ObjListRewriter(ast.NodeTransformer):
+    """methods of `Solver` that walk `self.state_list`: the list of node objects becomes one vector per attribute
+    (`owners` for `.player`, `rows` for `.next_states`); a loop over the objects becomes a loop over their indices;
+    `obj.attr` becomes `vector[index]`, `obj.attr = e` becomes `vector = __setidx(vector, index, e)`"""
+
+    def __init__(self):
+        self.alias = {}
+
+    def _is_state_list(self, n):
+        return isinstance(n, ast.Attribute) and isinstance(n.value, ast.Name) and n.value.id == "self" and n.attr == "state_list"
+
+    def visit_For(self, node):
+        it = node.iter
+        if self._is_state_list(it) and isinstance(node.target, ast.Name):
+            idx = node.target.id + "__i"
+            self.alias[node.target.id] = idx
+            node.target = ast.Name(id=idx, ctx=ast.Store())
+            node.iter = ast.Call(func=ast.Name(id="range", ctx=ast.Load()),
+                                 args=[ast.Call(func=ast.Name(id="len", ctx=ast.Load()), args=[ast.Name(id="owners", ctx=ast.Load())], keywords=[])], keywords=[])
+        elif isinstance(it, ast.Call) and isinstance(it.func, ast.Name) and it.func.id == "enumerate" and self._is_state_list(it.args[0]) \
+                and isinstance(node.target, ast.Tuple) and len(node.target.elts) == 2 and all(isinstance(x, ast.Name) for x in node.target.elts):
+            idx, obj = node.target.elts[0].id, node.target.elts[1].id
+            if idx == "_":
+                idx = obj + "__i"
+            self.alias[obj] = idx
+            node.target = ast.Name(id=idx, ctx=ast.Store())
+            node.iter = ast.Call(func=ast.Name(id="range", ctx=ast.Load()),
+                                 args=[ast.Call(func=ast.Name(id="len", ctx=ast.Load()), args=[ast.Name(id="owners", ctx=ast.Load())], keywords=[])], keywords=[])
+        self.generic_visit(node)
+        return node
+
+    def _index_of(self, obj):
+        """index expression of an object expression (`state` alias or `self.state_list[e]`), or None"""
+        if isinstance(obj, ast.Name) and obj.id in self.alias:
+            return ast.Name(id=self.alias[obj.id], ctx=ast.Load())
+        if isinstance(obj, ast.Subscript) and self._is_state_list(obj.value):
+            return self.visit(obj.slice)
+        return None
+
+    def visit_Assign(self, node):
+        if len(node.targets) == 1 and isinstance(node.targets[0], ast.Attribute) and node.targets[0].attr in OBJ_FIELDS:
+            i = self._index_of(node.targets[0].value)
+            if i is not None:
+                vec = OBJ_FIELDS[node.targets[0].attr]
+                val = self.visit(node.value)
+                return ast.copy_location(ast.Assign(
+                    targets=[ast.Name(id=vec, ctx=ast.Store())],
+                    value=ast.Call(func=ast.Name(id="__setidx", ctx=ast.Load()), args=[ast.Name(id=vec, ctx=ast.Load()), i, val], keywords=[])), node)
+        self.generic_visit(node)
+        return node
+
+    def visit_Attribute(self, node):
+        if node.attr in OBJ_FIELDS and isinstance(node.ctx, ast.Load):
+            i = self._index_of(node.value)
+            if i is not None:
+                return ast.copy_location(ast.Subscript(value=ast.Name(id=OBJ_FIELDS[node.attr], ctx=ast.Load()), slice=i, ctx=ast.Load()), node)
+        self.generic_visit(node)
+        return node
+
+
+def solver_method_as_function(tree, cls, meth, lean_name):
+    import copy
+    for node in tree.body:
+        if isinstance(node, ast.ClassDef) and node.name == cls:
+            for sub in node.body:
+                if isinstance(sub, ast.FunctionDef) and sub.name == meth:
+                    f = ObjListRewriter().visit(copy.deepcopy(sub))
+                    used = {n.id for n in ast.walk(f) if isinstance(n, ast.Name)}
+                    f.args.args = [ast.arg(arg=a) for a in ("owners", "rows") if a in used]
+                    f.args.defaults = []
+                    f.name = lean_name
+                    ast.fix_missing_locations(f)
+                    return f
+    return None
+
+
 def method_as_function(tree, cls, meth, lean_name, pseudo_of, self_fields=None):
     import copy
     for node in tree.body:
@@ -1224,7 +1313,11 @@ class ModuleTranslator:
                 self.rtypes[n] = imports_from.rtypes[n]
         self.pseudo_of = {}
         for name, cfg in units.items():
-            if "cls" in cfg:
+            if cfg.get("objlist"):
+                f = solver_method_as_function(self.tree, cfg["cls"], cfg["of"], name)
+                if f is not None:
+                    fdefs[name] = f
+            elif "cls" in cfg:
                 f = method_as_function(self.tree, cfg["cls"], cfg["of"], name, self.pseudo_of, cfg.get("self_fields"))
                 if f is not None:
                     fdefs[name] = f
@@ -1343,6 +1436,11 @@ TAD_UNITS["StochasticGame_check_game"] = {
     "self_fields": ["transition_list", "num_states", "rewards", "final_states", "players"],
     "params": {"transition_list": TList(TVar("A")), "num_states": INT, "rewards": TList(FLOAT), "final_states": TList(INT),
                "players": TList(STR)}}
+
+
+TAD_UNITS["Solver_prune_states"] = {
+    "cls": "Solver", "of": "prune_states", "objlist": True, "result_var": "rows", "returns": TList(TList(TTup(SLOT, INT))),
+    "params": {"owners": TList(STR), "rows": TList(TList(TTup(SLOT, INT)))}}
 
 
 def write_if_changed(path, text):
